@@ -389,7 +389,7 @@ func body09(k c09case, progress bool) Body {
 
 // C09 — streamed INSERT sends one faithful block per input round, then a terminator.
 func C09(c *vk.Ctx) {
-	c.Rule("all OnInput histories of <= n rounds (quick 3, thorough 4) over {append 1, append 3, Reset+append 2, overwrite every row in place, return nil unchanged, io.EOF with rows, Reset+io.EOF, Reset+wrapped io.EOF, other error} (each history is closed by Reset+io.EOF) x initial rows {0, 2} x column {UInt64, FixedString(4), String, LowCardinality(String), Array(String), Enum8 via ColEnum}, alone or next to a UInt64 column, x {plain, LZ4}; every case is one execution of the real Connect + Do on the default schedule (thorough: plus all schedules up to 1 preemption while the server sends Progress). Oracle: the blocks parsed from the client stream by the reference model equal the model's snapshots of the column contents at the start of each round, followed by exactly one empty block. distinct_nontrivial = cases.")
+	c.Rule("all OnInput histories of <= n rounds (quick 3, thorough 4) over {append 1, append 3, Reset+append 2, overwrite every row in place, return nil unchanged, io.EOF with rows, Reset+io.EOF, Reset+wrapped io.EOF, other error} (each history is closed by Reset+io.EOF) x initial rows {0, 2; 30000 (a first block of 240 KB and more) for histories of <= 2 rounds over UInt64 / String / LowCardinality(String)} x column {UInt64, FixedString(4), String, LowCardinality(String), Array(String), Enum8 via ColEnum}, alone or next to a UInt64 column, x {plain, LZ4}; every case is one execution of the real Connect + Do on the default schedule (thorough: plus all schedules up to 1 preemption while the server sends Progress). Oracle: the blocks parsed from the client stream by the reference model equal the model's snapshots of the column contents at the start of each round, followed by exactly one empty block. distinct_nontrivial = cases.")
 	quick := c.Quick()
 	maxLen := 3
 	if !quick {
@@ -414,9 +414,12 @@ func C09(c *vk.Ctx) {
 	nc := len(sCols())
 	for ci := 0; ci < nc; ci++ {
 		for _, two := range []bool{false, true} {
-			for _, initial := range []int{0, 2} {
+			for _, initial := range []int{0, 2, 30000} {
 				for _, lz4 := range []bool{false, true} {
 					for _, h := range hist {
+						if initial > 2 && (len(h) > 2 || (ci != 0 && ci != 2 && ci != 3)) {
+							continue // large first block: histories of <= 2 rounds, UInt64 / String / LowCardinality
+						}
 						k := c09case{col: ci, two: two, initial: initial, ops: h, lz4: lz4}
 						id := k.id()
 						if !c.Next(id) {
